@@ -179,8 +179,7 @@ Section Hist.
       if xj =? x then yj
       else ((nth (S j) hcdf zero - yj) / (nth (S j) edges zero - xj)) * (x - xj) + yj.
   (** [_calculate_probabilities]: masses between consecutive points of
-      [linspace(min, max, num_bins)] of the pooled sample ([num_bins - 1] masses):
-      [cdf(bins[i]) - cdf(bins[i-1])] *)
+      [bins = linspace(lo, hi, num_bins)] ([num_bins - 1] masses): [cdf(bins[i]) - cdf(bins[i-1])] *)
   Fixpoint diffF (F : N -> N) (pts : list N) : list N :=
     match pts with
     | a :: r => match r with b :: _ => (F b - F a) :: diffF F r | [] => [] end
@@ -188,6 +187,13 @@ Section Hist.
     end.
   Definition masses (counts : list Z) (edges : list N) (pts : list N) : list N :=
     diffF (rvh_cdf edges (rvh_cdf_table counts edges)) pts.
+  (** discretisation points of [_calculate_probabilities]:
+      [linspace(min(ref.a, test.a), max(ref.b, test.b), num_bins)] where [a], [b] are the first
+      and last edge of each auto histogram (the support of its [rv_histogram]); Python's
+      [min(x, y)] / [max(x, y)] return [y] only when it is strictly smaller / larger *)
+  Definition support_points (eX eY : list N) (nb : nat) : list N :=
+    linspace (lmin [hd zero eX; hd zero eY]) (lmax [last eX zero; last eY zero]) nb.
+  (** BEFORE the repair (frouros <= 5e463cd^): [linspace(min, max, num_bins)] of the pooled sample *)
   Definition pooled_points (X Y : list N) (nb : nat) : list N :=
     linspace (lmin (X ++ Y)) (lmax (X ++ Y)) nb.
 
@@ -210,7 +216,7 @@ Section Hist.
   Definition kl_f (Pref Qtest : list N) : xnum := xsum (map2 rel_entr Qtest Pref).
   (** [scipy.spatial.distance.jensenshannon(p, q)] (base e): normalise both, mixture,
       [sqrt((sum rel_entr(p,m) + sum rel_entr(q,m)) / 2)]; a zero total gives 0/0 = nan *)
-  Definition js_f (P Q : list N) : xnum :=
+  Definition jensenshannon (P Q : list N) : xnum :=
     let sP := sumA P in
     let sQ := sumA Q in
     if sP =? zero then NaN
@@ -223,11 +229,27 @@ Section Hist.
       | Fin v => Fin (sqrt (v / two))
       | o => o
       end.
-  (** oracle record for one sample: [np.histogram(sample, bins="auto")] *)
-  Definition js_dist (nb : nat) (hX hY : list Z * list N) (X Y : list N) : xnum :=
-    let pts := pooled_points X Y nb in
+  (** js.py (since f367129): [js = jensenshannon(p, q); if isnan(js) and all masses finite: js = 0.0]
+      ([isnan x] is [x != x]; the masses of finite samples are finite) *)
+  Definition js_f (P Q : list N) : xnum :=
+    match jensenshannon P Q with
+    | Fin w => if w =? w then Fin w else Fin zero
+    | NaN => Fin zero
+    | PInf => PInf
+    end.
+  (** oracle record for one sample: [np.histogram(sample, bins="auto")] = (counts, edges).
+      [hX] belongs to the reference sample, [hY] to the test sample. *)
+  Definition js_dist (nb : nat) (hX hY : list Z * list N) : xnum :=
+    let pts := support_points (snd hX) (snd hY) nb in
     js_f (masses (fst hX) (snd hX) pts) (masses (fst hY) (snd hY) pts).
-  Definition kl_dist (nb : nat) (hX hY : list Z * list N) (X Y : list N) : xnum :=
+  Definition kl_dist (nb : nat) (hX hY : list Z * list N) : xnum :=
+    let pts := support_points (snd hX) (snd hY) nb in
+    kl_f (masses (fst hX) (snd hX) pts) (masses (fst hY) (snd hY) pts).
+  (** the pre-repair definitions (points spanning the pooled sample range, no nan guard) *)
+  Definition js_dist_pre (nb : nat) (hX hY : list Z * list N) (X Y : list N) : xnum :=
+    let pts := pooled_points X Y nb in
+    jensenshannon (masses (fst hX) (snd hX) pts) (masses (fst hY) (snd hY) pts).
+  Definition kl_dist_pre (nb : nat) (hX hY : list Z * list N) (X Y : list N) : xnum :=
     let pts := pooled_points X Y nb in
     kl_f (masses (fst hX) (snd hX) pts) (masses (fst hY) (snd hY) pts).
 
